@@ -410,6 +410,147 @@ async def _part_noraise(ctx, rng, loop):
 
 
 # ---------------------------------------------------------------------------
+# part 5: callbacks that change the registrations while they are being called
+
+class _Cb:
+    """A key-issue / telegram callback with a scripted side effect on the registrations."""
+
+    def __init__(self, pool, kind, name):
+        self.pool, self.kind, self.name = pool, kind, name
+        self.calls = 0
+        self.unregister = None
+        self.registered = False
+
+    def __call__(self, telegram):
+        self.calls += 1
+        pool = self.pool
+        if self.kind == "self_unreg" and self.registered:
+            pool.unreg(self)
+        elif self.kind == "reg_other":
+            pool.add("plain")
+        elif self.kind == "unreg_next":
+            later = [c for c in pool.cbs if c.registered and c is not self and c.kind == "victim"]
+            if later:
+                pool.unreg(later[0])
+        elif self.kind == "raises":
+            raise ValueError("callback trouble")
+
+
+class _Pool:
+    def __init__(self, register):
+        self._register = register  # fn(cb) -> unregister()
+        self.cbs = []
+        self.touched = set()  # callbacks (un)registered while a frame was being handled
+
+    def add(self, kind):
+        cb = _Cb(self, kind, f"{kind}{len(self.cbs)}")
+        cb.unregister = self._register(cb)
+        cb.registered = True
+        self.cbs.append(cb)
+        self.touched.add(cb)
+        return cb
+
+    def unreg(self, cb):
+        cb.unregister()
+        cb.registered = False
+        self.touched.add(cb)
+
+
+async def _part_callback_mutation(ctx, rng, loop):
+    keyed = {g: rng.randbytes(16) for g in rng.sample(range(1, 0x10000), 2)}
+    unkeyed = rng.sample(range(1, 0x10000), 1)
+    known = rng.sample(range(2, 0x10000), 2)
+    bench = Bench(keyed, unkeyed, {a: 0 for a in known}, own=0x1001)
+    tq = bench.xknx.telegram_queue
+    issue_pool = _Pool(tq.register_data_secure_group_key_issue_cb)
+
+    def reg_telegram(cb):
+        handle = tq.register_telegram_received_cb(cb)
+        return lambda: tq.unregister_telegram_received_cb(handle)
+
+    tele_pool = _Pool(reg_telegram)
+    kinds = ["plain", "self_unreg", "plain", "reg_other", "unreg_next", "victim", "plain", "raises", "self_unreg", "plain"]
+    rng.shuffle(kinds)
+    for k in kinds:
+        issue_pool.add(k)
+    kinds2 = list(kinds)
+    rng.shuffle(kinds2)
+    for k in kinds2:
+        tele_pool.add(k)
+    await bench.start()
+    gas = list(keyed)
+    seq = 0
+    try:
+        for step in range(rng.randrange(6, 14)):
+            seq += 1
+            what = rng.choice(("plain_keyed", "plain_keyed", "bad_mac", "unknown_sender", "plain_unkeyed", "genuine"))
+            da = rng.choice(gas)
+            if what == "plain_keyed":
+                raw = ref.plain_ldata(b"\x00\x81", sa=known[0], da=da, group=True)
+            elif what == "plain_unkeyed":
+                raw = ref.plain_ldata(b"\x00\x81", sa=known[0], da=unkeyed[0], group=True)
+            elif what == "bad_mac":
+                raw = ref.secure_ldata(keyed[da], b"\x00\x81", scf=0x10, seq=seq + 50, sa=known[0], da=da, group=True, mac_override=bytes(4))
+            elif what == "unknown_sender":
+                raw = ref.secure_ldata(keyed[da], b"\x00\x81", scf=0x10, seq=seq, sa=1, da=da, group=True)
+            else:
+                raw = ref.secure_ldata(keyed[da], b"\x00\x81", scf=0x10, seq=seq + 100, sa=known[1], da=da, group=True)
+            if rng.random() < 0.3 and not any(c.registered and c.kind == "self_unreg" for c in issue_pool.cbs):
+                issue_pool.add("self_unreg")
+                issue_pool.add("plain")
+            for pool in (issue_pool, tele_pool):
+                pool.touched = set()
+            before_i = {c: c.calls for c in issue_pool.cbs}
+            before_t = {c: c.calls for c in tele_pool.cbs}
+            registered_i = [c for c in issue_pool.cbs if c.registered]
+            nexc = len(loop.exceptions)
+            out, queued, _ = await bench.inject(raw)
+            ctx.ev()
+            ctx.count("mutation_frames")
+            ctx.count(f"mutation_frame_{what}")
+            ctx.distinct(("cbmut", what, out.kind(), len(issue_pool.touched), len(tele_pool.touched)))
+            wit = {"raw": raw, "frame": what, "key_issue_callbacks": [(c.name, c.registered, c.calls - before_i.get(c, 0)) for c in issue_pool.cbs],
+                   "telegram_callbacks": [(c.name, c.registered, c.calls - before_t.get(c, 0)) for c in tele_pool.cbs], "outcome": out.kind()}
+            if out.exc is not None or len(loop.exceptions) > nexc:
+                name = type(out.exc).__name__ if out.exc is not None else "in-loop-handler"
+                ctx.violation(f"callback-changing-registrations-makes-receive-path-raise-{name}", dict(wit, exception=repr(out.exc)[:200]),
+                              f"{what}: a callback (un)registering callbacks while being called made the receive path raise {name}")
+                continue
+            ctx.count("mutation_returned_normally")
+            expect_issue = what in ("plain_keyed", "bad_mac", "unknown_sender")
+            stable = [c for c in registered_i if c.registered and c not in issue_pool.touched]
+            for c in stable:
+                got = c.calls - before_i[c]
+                if got != (1 if expect_issue else 0):
+                    if expect_issue and got == 0:
+                        # A sibling that (un)registers callbacks from inside its own call makes the live list skip
+                        # its successor for this one frame.  The statement's quantifier has no callbacks that change
+                        # registrations while being called (same decision as C34), so this is recorded, not judged;
+                        # that the receive path must not RAISE in that situation is judged above.
+                        ctx.count("recorded_key_issue_callback_skipped_when_a_sibling_changed_registrations")
+                    else:
+                        ctx.violation(f"key-issue-callback-called-{got}-times", dict(wit, callback=c.name),
+                                      f"{what}: key-issue callback {c.name} called {got} times (expected {1 if expect_issue else 0})")
+                    break
+            else:
+                ctx.count("stable_key_issue_callbacks_checked", len(stable))
+            if issue_pool.touched:
+                ctx.count("frames_with_key_issue_registration_change")
+            if tele_pool.touched:
+                ctx.count("frames_with_telegram_registration_change")
+            if what == "plain_keyed" and any(c.calls != before_t.get(c, 0) for c in tele_pool.cbs):
+                ctx.violation("plain-frame-to-keyed-ga-reaches-telegram-callback-GroupValueWrite", wit, "plain frame to keyed GA reached a telegram callback")
+        before = len(bench.cb_all)
+        await bench.inject(ref.plain_ldata(b"\x00\x81", sa=known[0], da=unkeyed[0], group=True))
+        if len(bench.cb_all) == before + 1:
+            ctx.count("consumer_alive_after_callback_mutation")
+        else:
+            ctx.violation("telegram-consumer-dead-after-callback-mutation", {}, "consumer no longer delivers after self-unregistering callbacks")
+    finally:
+        await bench.stop()
+
+
+# ---------------------------------------------------------------------------
 # part 4: the same rules from the very first frame on, through the real interface start with a keyring
 
 _KEYRING = None
@@ -590,6 +731,9 @@ def run(ctx):
     ctx.require("plain_to_keyed", "plain_to_keyed_group", "key_issue_reported_once", "unkeyed_delivered", "outgoing_to_keyed", "outgoing_secured",
                 "outgoing_decrypts_at_peer", "authenticated_frames", "inner_empty", "inner_one-octet", "inner_malformed", "inner_unsupported",
                 "inner_valid", "inner_valid_delivered", "hostile_frames", "returned_normally", "consumer_alive_after_corpus")
+    ctx.require("mutation_frames", "mutation_frame_plain_keyed", "mutation_frame_bad_mac", "mutation_returned_normally",
+                "stable_key_issue_callbacks_checked", "frames_with_key_issue_registration_change", "frames_with_telegram_registration_change",
+                "consumer_alive_after_callback_mutation")
     ctx.require("interface_scenarios", "interface_tcp", "interface_udp", "interface_plain_to_keyed_with-connect-response",
                 "interface_plain_to_keyed_right-after-connect-response", "interface_plain_to_keyed_later",
                 "interface_key_issue_reported_once", "interface_unkeyed_delivered", "interface_outgoing_secured")
@@ -612,6 +756,9 @@ def run(ctx):
                     _run_async(ctx, loop, _part_outgoing(ctx, rng, 25), "outgoing")
                 else:
                     rng.random()
+            for i in range(ctx.scale(40, 2000)):
+                if ctx.mine(i):
+                    _run_async(ctx, loop, _part_callback_mutation(ctx, rng, loop), "callback-mutation")
             _run_async(ctx, loop, _part_noraise(ctx, rng, loop), "no-raise")
     finally:
         leaked = loop.finish()
